@@ -1,5 +1,7 @@
 import Model.Based
 import Proofs.C20
+import Proofs.C20Hist
+import Proofs.C20DA
 import Gen.C20
 
 /-! # C20 — based sequencer: DA-ordered, size-bounded, restart-safe batches
@@ -7,14 +9,24 @@ import Gen.C20
 About `Based.getNextBatch` / `Based.restart` (`Model/Based.lean`), the definitions the driver
 `drv_C20` executes against the real `sequencers/based` code on every run.
 
-* full strength, for ALL inputs and call sequences: the size bound (`C20_size_bound`,
-  `C20_size_bound_run`) and restart-invariance (`C20_restart_after_call`, `C20_restart_invariance`);
-* the release-sequence clauses are FALSE of the current code: `C20_exactly_once`,
-  `C20_nothing_skipped`, `C20_pushback_first` are refuted by kernel-checked witnesses whose runs are
-  also what the real code does today (`Gen.C20`, regenerated on every run);
-* what is provable of them: one call conserves the carry-over and consumes DA heights in DA order
-  (`C20_call_da_order_partial`, hypothesis: the carry-over is empty), and the carry-over pop never
-  drops or reorders (`C20_pop_conserves`). -/
+All clauses hold at full strength of the repaired code (sequencer.go: the scan is not entered while
+un-popped carry-over remains; a height the DA has not reached stops the scan like a retrieval error;
+a push-back consumes its height):
+
+* size bound, for ALL inputs, states and call sequences (`C20_size_bound`, `C20_size_bound_run`);
+* restart-invariance (`C20_restart_after_call`, `C20_restart_invariance`, `C20_history_restart_invariance`);
+* DA order + exactly once + nothing dropped, for EVERY history of calls with any limits, any
+  retrieval error / not-yet-reached pattern per call, and restarts anywhere: everything released so
+  far followed by the carry-over IS the DA stream from the start height up to the scan position
+  (`C20_da_order`; corollaries `C20_released_is_prefix`, `C20_exactly_once`, `C20_nothing_skipped`);
+* errors and heights from the future: the position never passes such a height
+  (`C20_failed_height_not_passed`, `C20_failed_height_not_passed_history`);
+* what did not fit comes first in the next batch (`C20_pushback_first_call`, `C20_pushback_first`),
+  and a limit smaller than the carry-over head releases nothing and stays put;
+* nothing is stuck (`C20_drains`): later heights are reached and every tx is released.
+
+The inputs that refuted the clauses before the repair are kept as kernel-checked
+"now behaves" theorems; their runs are also what the real code does (`Gen.C20`). -/
 namespace Spec.C20
 open Based
 
@@ -24,15 +36,11 @@ theorem C20_default_limit : Based.defaultMax = Gen.C20.defaultMaxBlobSize := by 
 
 private theorem assemble_le (max : Nat) (q : List Entry) (drift : Nat) (da : Nat → Fetch) (lastDA fuel next : Nat) :
     bytesOf ((popQueue max q 0 0).taken ++
-      (scan drift da max lastDA fuel next (popQueue max q 0 0).size (popQueue max q 0 0).ts).taken) ≤ max := by
+      (scanQ (popQueue max q 0 0).queue drift da max lastDA fuel next (popQueue max q 0 0).size (popQueue max q 0 0).ts).taken) ≤ max := by
   have hp := popQueue_spec max q 0 0
-  have hs := scan_spec drift da max lastDA fuel next (popQueue max q 0 0).size (popQueue max q 0 0).ts
+  have hs := scanQ_spec (popQueue max q 0 0).queue drift da max lastDA fuel next (popQueue max q 0 0).size (popQueue max q 0 0).ts
   have := hs.2 (hp.2 (Nat.zero_le _))
   rw [bytesOf_append]; omega
-
-private theorem items_ite (l : List Item) (ts : Nat) :
-    (if l.isEmpty then Resp.nil else Resp.batch l ts).items = l := by
-  cases l <;> simp [Resp.items]
 
 /-- **Size bound.** Whatever the state (reachable or not), the DA answers, the limit (also one
 smaller than every tx; `0` means the default) and the echoed `LastBatchData`: a released batch
@@ -83,12 +91,8 @@ example : bytesOf (getNextBatch ⟨1, 0⟩ (fun _ => .empty)
 sequencer object built from the datastore has exactly the state of the running one
 (`restart ∘ step = step`): queue and scan position are both persisted before the call returns. -/
 theorem C20_restart_after_call (cfg : Cfg) (da : Nat → Fetch) (s : St) (r : Req) (h : r.idOk = true) :
-    restart (getNextBatch cfg da s r).st = (getNextBatch cfg da s r).st := by
-  unfold getNextBatch
-  simp only [h, Bool.not_true, Bool.false_eq_true, if_false]
-  split
-  · split <;> simp [restart]
-  · simp [restart]
+    restart (getNextBatch cfg da s r).st = (getNextBatch cfg da s r).st :=
+  restart_gnb cfg da s r h
 
 theorem C20_restart_durable (cfg : Cfg) (da : Nat → Fetch) (s : St) (r : Req) (hs : restart s = s) :
     restart (getNextBatch cfg da s r).st = (getNextBatch cfg da s r).st := by
@@ -102,7 +106,7 @@ def isCall : Ev → Bool
 
 /-- **Restart-invariance.** From a state that is what its datastore says (in particular the
 initial state), a history with restarts between any two calls yields the same responses as the
-same history without the restarts. -/
+same history without the restarts — for every caller (any echo, any chain id). -/
 theorem C20_restart_invariance (cfg : Cfg) (s : St) (hs : restart s = s) (evs : List Ev) :
     run cfg s evs = run cfg s (evs.filter isCall) := by
   induction evs generalizing s with
@@ -116,102 +120,85 @@ theorem C20_restart_invariance (cfg : Cfg) (s : St) (hs : restart s = s) (evs : 
 
 theorem C20_init_durable : restart ({} : St) = {} := rfl
 
+/-- the same for the histories of the block manager (`playH`: the echo is what the previous
+responses were): batches, final state and final echo do not depend on the restarts -/
+theorem C20_history_restart_invariance (cfg : Cfg) (evs : List Step) :
+    playH cfg {} [] evs = playH cfg {} [] (evs.filter Step.isCall) :=
+  playH_restart_invariance cfg {} [] rfl evs
+
 /-- non-vacuity: a state with a non-empty carry-over and a scan position, restarted -/
 example : (restart (getNextBatch ⟨1, 0⟩ (fun _ => .ok [⟨[1, 2], [7]⟩, ⟨[3, 4], [8]⟩] 9) {} { max := 3 }).st).queue
     = [⟨[⟨[3, 4], [8]⟩], 9⟩] := by decide
 
-/-! ## DA order / exactly once / nothing dropped — false of the current code -/
+/-! ## DA order, exactly once, nothing dropped — every history
 
-/-- the block manager as caller (block/manager.go:546-581): echoes the ids of the last batch -/
-def play (cfg : Cfg) : St → List Bytes → List (DA × Nat) → St × List (List Item)
-  | s, _, [] => (s, [])
-  | s, last, (d, max) :: cs =>
-    let o := getNextBatch cfg d.fetch s { max := max, last := last }
-    let r := play cfg o.st (match o.resp with | .batch items _ => items.map (·.id) | _ => last) cs
-    (r.1, o.resp.items :: r.2)
+Vocabulary (`Proofs/C20.lean`, `Proofs/C20Hist.lean`): `Content` = what the DA layer holds per
+height (immutable); `stream c lo n` = the txs of the `n` heights from `lo`, by height then position;
+`Answers c da` = one call's view `da` of the DA layer is consistent with `c` — every height answers
+with its content, as empty if it has none, with a retrieval error, or as not yet reached
+(`AllAnswer`: for every call of the history, each call with its own view: this is "any retrieval
+error pattern"); `IdsNotAhead c` = DA ids carry their height (`coreda.SplitID`);
+`playH cfg s last evs` = the history `evs` of calls `(view, limit)` and restarts as the block
+manager drives it (it echoes the ids of the last batch it received). -/
 
-def idsOf (bs : List (List Item)) : List (List Bytes) := bs.map fun b => b.map (·.id)
+/-- everything the history released, in order, from the initial state -/
+def released (cfg : Cfg) (evs : List Step) : List Item := (playH cfg {} [] evs).batches.flatten
 
-/-- full statement: on a fixed DA, no DA tx is released twice -/
-def C20_exactly_once : Prop :=
-  ∀ (cfg : Cfg) (d : DA) (maxs : List Nat),
-    ((play cfg {} [] (maxs.map fun m => (d, m))).2.flatten.map (·.id)).Nodup
+/-- the state after the history -/
+def finalSt (cfg : Cfg) (evs : List Step) : St := (playH cfg {} [] evs).st
 
-def w1DA : DA := { head := 50, blobs := [(1, [[0xaa, 1], [0xaa, 2], [0xaa, 3]]), (2, [[0xbb, 1]])] }
+/-- **DA order, exactly once, nothing dropped.** For every DA content, every history of calls with
+any limits (also smaller than a tx) and any pattern of retrieval errors and not-yet-reached heights
+per call, with restarts between any two calls: everything released so far, followed by the
+carry-over queue, is exactly the DA stream of the `n` heights from the start height, by height then
+position — and the persisted scan position is exactly past those `n` heights. So the released txs
+are a prefix of the DA stream (order, no duplicate, no gap), and the txs of the heights consumed
+that were not released yet are in the carry-over, in order. -/
+theorem C20_da_order (cfg : Cfg) (c : Content) (hc : IdsNotAhead c) (evs : List Step) (hA : AllAnswer c evs) :
+    ∃ n, released cfg evs ++ flat (finalSt cfg evs).queue = stream c cfg.daStart n ∧
+      persistedPos cfg (finalSt cfg evs) = cfg.daStart + n := by
+  have h := (playH_inv c cfg hc evs hA {} [] [] (inv_init c cfg)).str
+  simpa [released, finalSt] using h
 
-/-- the witness history is what the real code does today -/
-theorem C20_w1_is_real : idsOf (play ⟨1, 2⟩ {} [] [(w1DA, 5), (w1DA, 5), (w1DA, 5)]).2 = Gen.C20.w1Ids := by
-  decide +kernel
+/-- the released sequence is a prefix of the DA stream -/
+theorem C20_released_is_prefix (cfg : Cfg) (c : Content) (hc : IdsNotAhead c) (evs : List Step) (hA : AllAnswer c evs) :
+    ∃ n, released cfg evs <+: stream c cfg.daStart n := by
+  obtain ⟨n, h, _⟩ := C20_da_order cfg c hc evs hA
+  exact ⟨n, by rw [← h]; exact List.prefix_append _ _⟩
 
-/-- **Defect.** After a push-back at height `h` the persisted scan position is `h` again and the
-echoed `LastBatchData` (last id at height `h`, not `> h`) does not move it: height `h` is scanned
-and released again. -/
-theorem C20_exactly_once_fails : ¬ C20_exactly_once := by
-  intro h
-  have := h ⟨1, 2⟩ w1DA [5, 5]
-  revert this
-  decide +kernel
+/-- **Exactly once**, in terms of ids: if the DA layer gives distinct ids to its blobs, no id is
+released twice (whatever the limits, error patterns and restarts). -/
+theorem C20_exactly_once (cfg : Cfg) (c : Content) (hc : IdsNotAhead c) (evs : List Step) (hA : AllAnswer c evs)
+    (hd : ∀ n, ((stream c cfg.daStart n).map (·.id)).Nodup) :
+    ((released cfg evs).map (·.id)).Nodup := by
+  obtain ⟨n, h⟩ := C20_released_is_prefix cfg c hc evs hA
+  exact List.Nodup.sublist (h.map _).sublist (hd n)
 
-/-- and the scan position never leaves that height: height 2 is never reached, however many calls -/
-theorem C20_w1_stuck : (play ⟨1, 2⟩ {} [] (List.replicate 12 (w1DA, 5))).1.scanP = some 1 ∧
-    ∀ b ∈ (play ⟨1, 2⟩ {} [] (List.replicate 12 (w1DA, 5))).2, ∀ it ∈ b, splitHeight it.id = some 1 := by
-  decide +kernel
+/-- **Nothing skipped, nothing dropped**: every tx of every height below the scan position has been
+released or sits in the (persisted) carry-over. -/
+theorem C20_nothing_skipped (cfg : Cfg) (c : Content) (hc : IdsNotAhead c) (evs : List Step) (hA : AllAnswer c evs)
+    (h : Nat) (h1 : cfg.daStart ≤ h) (h2 : h < persistedPos cfg (finalSt cfg evs)) (it : Item) (hit : it ∈ c h) :
+    it ∈ released cfg evs ∨ it ∈ flat (finalSt cfg evs).queue := by
+  obtain ⟨n, g1, g2⟩ := C20_da_order cfg c hc evs hA
+  have : it ∈ stream c cfg.daStart n := (mem_stream ..).mpr ⟨h, h1, by omega, hit⟩
+  rw [← g1] at this
+  simpa using this
 
-def DA.extendedBy (d d' : DA) : Prop :=
-  d.head ≤ d'.head ∧ (∀ h, h < d.head → d'.txsAt h = d.txsAt h) ∧
-    d.errIds = [] ∧ d.errGet = [] ∧ d'.errIds = [] ∧ d'.errGet = []
+/-- and the carry-over is what the datastore holds: nothing is only in memory -/
+theorem C20_carry_over_persisted (cfg : Cfg) (c : Content) (hc : IdsNotAhead c) (evs : List Step) (hA : AllAnswer c evs) :
+    restart (finalSt cfg evs) = finalSt cfg evs :=
+  (playH_inv c cfg hc evs hA {} [] [] (inv_init c cfg)).dur
 
-/-- full statement: when the DA grows, every tx at a height below the scan position has been
-released or sits in the carry-over -/
-def C20_nothing_skipped : Prop :=
-  ∀ (cfg : Cfg) (d d' : DA) (m k k' : Nat), DA.extendedBy d d' →
-    let r := play cfg {} [] (List.replicate k (d, m) ++ List.replicate k' (d', m))
-    ∀ h, cfg.daStart ≤ h → h < persistedPos cfg r.1 → ∀ it ∈ mkItems h 0 (d'.txsAt h),
-      it ∈ r.2.flatten ∨ it ∈ flat r.1.queue
-
-def w2DA : DA := { head := 2, blobs := [(1, [[1]])] }
-def w2DA' : DA := { head := 10, blobs := [(1, [[1]]), (2, [[2]])] }
-
-theorem C20_w2_is_real : idsOf (play ⟨1, 1⟩ {} [] [(w2DA, 0), (w2DA', 0), (w2DA', 0)]).2 = Gen.C20.w2Ids := by
-  decide +kernel
-
-/-- **Defect.** A height "from the future" is treated like an empty height: the scan position moves
-past the DA head, and what later appears at those heights is never scanned. -/
-theorem C20_nothing_skipped_fails : ¬ C20_nothing_skipped := by
-  intro h
-  have := h ⟨1, 1⟩ w2DA w2DA' 0 1 2 (by unfold DA.extendedBy; decide) 2 (by decide) (by decide +kernel) ⟨[2], mkId 2 0⟩ (by decide +kernel)
-  revert this
-  decide +kernel
-
-/-- does every call that starts with a non-empty carry-over and releases something release the
-carry-over head first? -/
-def pushbackFirst (cfg : Cfg) : St → List Bytes → List (DA × Nat) → Bool
-  | _, _, [] => true
-  | s, last, (d, max) :: cs =>
-    let o := getNextBatch cfg d.fetch s { max := max, last := last }
-    (match (flat s.queue).head?, o.resp.items.head? with
-      | some y, some x => decide (x = y)
-      | _, _ => true) &&
-    pushbackFirst cfg o.st (match o.resp with | .batch items _ => items.map (·.id) | _ => last) cs
-
-/-- full statement: a tx that did not fit comes first in the next batch -/
-def C20_pushback_first : Prop :=
-  ∀ (cfg : Cfg) (d : DA) (maxs : List Nat), pushbackFirst cfg {} [] (maxs.map fun m => (d, m)) = true
-
-def w3DA : DA := { head := 20, blobs := [(1, [[1], [9, 9, 9, 9, 9, 9], [3]]), (2, [[4]])] }
-
-theorem C20_w3_is_real : idsOf (play ⟨1, 1⟩ {} [] [(w3DA, 4), (w3DA, 4), (w3DA, 4)]).2 = Gen.C20.w3Ids := by
-  decide +kernel
-
-/-- **Defect.** A tx larger than the limit stays at the head of the carry-over for ever while the
-sequencer keeps releasing other txs (on this tree: the already released txs before it, again). -/
-theorem C20_pushback_first_fails : ¬ C20_pushback_first := by
-  intro h
-  have := h ⟨1, 1⟩ w3DA [4, 4]
-  revert this
-  decide +kernel
-
-/-! ## What is provable of the release-sequence clauses -/
+/-- **One call**, from any state (reachable or not), with an echo that is not ahead of the scan
+position: `released ++ carry-over after` = `carry-over before ++` the content of the `n` heights
+consumed from the scan position, and the new position is exactly past them. -/
+theorem C20_call_da_order (cfg : Cfg) (c : Content) (da : Nat → Fetch) (hA : Answers c da) (s : St) (r : Req)
+    (hid : r.idOk = true) (he : EchoOk cfg s r.last) :
+    ∃ n, (getNextBatch cfg da s r).resp.items ++ flat (getNextBatch cfg da s r).st.queue
+          = flat s.queue ++ stream c (persistedPos cfg s) n ∧
+      persistedPos cfg (getNextBatch cfg da s r).st = persistedPos cfg s + n := by
+  rw [gnb_norm cfg da s r hid he]
+  exact call_stream c cfg da hA s r.max
 
 /-- **The carry-over pop never drops or reorders**: released-from-queue ++ what stays queued is the
 queue, for every limit. -/
@@ -219,95 +206,191 @@ theorem C20_pop_conserves (max : Nat) (q : List Entry) :
     (popQueue max q 0 0).taken ++ flat (popQueue max q 0 0).queue = flat q :=
   popQueue_flat max q 0 0
 
-/-- **One call, DA order (partial).** Hypothesis: the carry-over is empty and the caller's echo
-does not lie ahead of the scan position (here: no echo). Then the call consumes `n` consecutive DA
-heights from the scan position, and `released ++ pushed-back` is exactly their content by height
-and position: nothing dropped, nothing reordered, and what did not fit is queued in order. The new
-scan position is `pos + n` — except after a push-back, where it is `pos + n - 1` (the defect:
-the last consumed height will be consumed again). -/
-theorem C20_call_da_order_partial (cfg : Cfg) (da : Nat → Fetch) (s : St) (max : Nat)
-    (hq : s.queue = []) :
-    let o := getNextBatch cfg da s { max := max }
-    ∃ n, o.resp.items ++ flat o.st.queue = daItems da (persistedPos cfg s) n ∧
-      ((flat o.st.queue = [] ∧ o.st.queue = []) → o.st.scanP = some (persistedPos cfg s + n)) ∧
-      (o.st.queue ≠ [] → o.st.scanP.map (· + 1) = some (persistedPos cfg s + n)) := by
-  simp only [getNextBatch, hq, Bool.not_true, Bool.false_eq_true, if_false, List.getLast?_nil, popQueue,
-    List.nil_append, items_ite]
-  obtain ⟨n, h1, h2, h3⟩ := scan_da_order cfg.drift da (effMax max) (persistedPos cfg s) (cfg.drift + 2) (persistedPos cfg s) 0 0
-  refine ⟨n, ?_, ?_, ?_⟩
-  · rw [← h1]
-    cases hpd : (scan cfg.drift da (effMax max) (persistedPos cfg s) (cfg.drift + 2) (persistedPos cfg s) 0 0).pushed <;>
-      simp [pushQ, pushedItems, flat]
-  · intro hq2
-    cases hpd : (scan cfg.drift da (effMax max) (persistedPos cfg s) (cfg.drift + 2) (persistedPos cfg s) 0 0).pushed with
-    | none => simp [h2 hpd]
-    | some e => simp [pushQ, hpd] at hq2
-  · intro hq2
-    cases hpd : (scan cfg.drift da (effMax max) (persistedPos cfg s) (cfg.drift + 2) (persistedPos cfg s) 0 0).pushed with
-    | none => simp [pushQ, hpd] at hq2
-    | some e => simp [h3 (by simp [hpd])]
-
-/-! ### several calls without push-back -/
-
-/-- calls of a caller that sends no `LastBatchData`, on a fixed DA -/
-def playNoEcho (cfg : Cfg) (da : Nat → Fetch) : St → List Nat → St × List Item
-  | s, [] => (s, [])
-  | s, m :: ms =>
-    ((playNoEcho cfg da (getNextBatch cfg da s { max := m }).st ms).1,
-     (getNextBatch cfg da s { max := m }).resp.items ++ (playNoEcho cfg da (getNextBatch cfg da s { max := m }).st ms).2)
-
-/-- the excluding hypothesis: no call of the history leaves anything in the carry-over -/
-def neverPushesBack (cfg : Cfg) (da : Nat → Fetch) : St → List Nat → Prop
-  | _, [] => True
-  | s, m :: ms => (getNextBatch cfg da s { max := m }).st.queue = [] ∧
-      neverPushesBack cfg da (getNextBatch cfg da s { max := m }).st ms
-
-/-- **DA order, exactly once, nothing dropped (partial).** On a fixed DA, for any number of calls
-with any limits, *as long as no call pushes anything back*: the concatenation of all released
-batches is exactly the content of the `n` consecutive heights from the first scan position, by
-height and position, each tx once; and the scan position has advanced by exactly `n`. -/
-theorem C20_da_order_partial (cfg : Cfg) (da : Nat → Fetch) (s : St) (ms : List Nat)
-    (hq : s.queue = []) (hn : neverPushesBack cfg da s ms) :
-    ∃ n, (playNoEcho cfg da s ms).2 = daItems da (persistedPos cfg s) n ∧
-      persistedPos cfg (playNoEcho cfg da s ms).1 = persistedPos cfg s + n := by
-  induction ms generalizing s with
-  | nil => exact ⟨0, by simp [playNoEcho, daItems]⟩
-  | cons m ms ih =>
-    obtain ⟨n1, h1, h2, _⟩ := C20_call_da_order_partial cfg da s m hq
-    have hq1 := hn.1
-    have hp1 : persistedPos cfg (getNextBatch cfg da s { max := m }).st = persistedPos cfg s + n1 := by
-      have := h2 ⟨by simp [hq1, flat], hq1⟩
-      have hle := daStart_le_pos cfg s
-      exact pos_of_scanP cfg _ _ this (by omega)
-    obtain ⟨n2, g1, g2⟩ := ih _ hq1 hn.2
-    refine ⟨n1 + n2, ?_, ?_⟩
-    · simp only [playNoEcho]
-      rw [daItems_add, g1, hp1, ← h1, hq1]
-      simp [flat]
-    · simp only [playNoEcho]
-      rw [g2, hp1]; omega
-
 /-- an echo that is not ahead of the scan position (what `block.Manager` sends) changes nothing -/
-theorem C20_echo_irrelevant (cfg : Cfg) (da : Nat → Fetch) (s : St) (r : Req) (id : Bytes) (e : Nat)
-    (h1 : r.last.getLast? = some id) (h2 : splitHeight id = some e) (h3 : e ≤ persistedPos cfg s) :
-    getNextBatch cfg da s r = getNextBatch cfg da s { r with last := [] } := by
-  have h4 : ¬ e > persistedPos cfg s := by omega
-  simp [getNextBatch, h1, h2, h4]
+theorem C20_echo_irrelevant (cfg : Cfg) (da : Nat → Fetch) (s : St) (r : Req) (hid : r.idOk = true)
+    (he : EchoOk cfg s r.last) :
+    getNextBatch cfg da s r = getNextBatch cfg da s { max := r.max } :=
+  gnb_norm cfg da s r hid he
 
-/-- non-vacuity: two calls on `w1DA` with drift 0 and the default limit never push back -/
-example : neverPushesBack ⟨1, 0⟩ w1DA.fetch {} [0, 0] ∧
-    (playNoEcho ⟨1, 0⟩ w1DA.fetch {} [0, 0]).2 = daItems w1DA.fetch 1 2 := by
-  unfold neverPushesBack neverPushesBack neverPushesBack
+/-! ## Retrieval errors and heights from the future -/
+
+/-- **Errors / future heights: position not advanced past them.** A call never moves the scan
+position past a height whose retrieval failed in that call or which the DA layer had not reached;
+with `C20_da_order` (everything below the position is released or queued) nothing is lost: the
+height is retried by a later call. -/
+theorem C20_failed_height_not_passed (cfg : Cfg) (da : Nat → Fetch) (s : St) (r : Req)
+    (hid : r.idOk = true) (he : EchoOk cfg s r.last) (h : Nat)
+    (hb : da h = .error ∨ da h = .future) (hn : persistedPos cfg s ≤ h) :
+    persistedPos cfg (getNextBatch cfg da s r).st ≤ h := by
+  rw [gnb_norm cfg da s r hid he]
+  exact call_stops_at cfg da s r.max h hb hn
+
+/-- along a history: while a height keeps failing (or is not reached), the position stays at or
+below it, however many calls are made -/
+theorem C20_failed_height_not_passed_history (cfg : Cfg) (c : Content) (hc : IdsNotAhead c) (evs : List Step)
+    (hA : AllAnswer c evs) (h : Nat) (hF : AllFailAt h evs) (hs : cfg.daStart ≤ h) :
+    persistedPos cfg (finalSt cfg evs) ≤ h :=
+  playH_stops_at c cfg hc evs hA h hF {} [] [] (inv_init c cfg) (by simpa [persistedPos] using hs)
+
+/-! ## What did not fit comes first in the next batch -/
+
+/-- **Push-back first, one call** (any state; echo not ahead). Let `y` be the head of the
+carry-over. If `y` fits the limit, the batch starts with `y`. If the limit is smaller than `y`,
+the call releases nothing and stays put: nil response, carry-over content and scan position
+unchanged — so `y` is still the head for the next call. -/
+theorem C20_pushback_first_call (cfg : Cfg) (da : Nat → Fetch) (s : St) (r : Req)
+    (hid : r.idOk = true) (he : EchoOk cfg s r.last) (y : Item) (ys : List Item) (hq : flat s.queue = y :: ys) :
+    (y.tx.length ≤ effMax r.max → ∃ rest, (getNextBatch cfg da s r).resp.items = y :: rest) ∧
+    (effMax r.max < y.tx.length → (getNextBatch cfg da s r).resp = .nil ∧
+      flat (getNextBatch cfg da s r).st.queue = flat s.queue ∧
+      persistedPos cfg (getNextBatch cfg da s r).st = persistedPos cfg s) := by
+  rw [gnb_norm cfg da s r hid he]
+  exact call_head cfg da s r.max y ys hq
+
+/-- **Push-back first, every history.** "Comes first in the next batch" means: if after a history
+`evs₁` the carry-over has head `y`, then whatever follows (`evs₂`: any limits, DA views, restarts),
+the first tx released afterwards — the first tx of the next non-empty batch — is `y` (or nothing is
+released at all: every limit was smaller than `y`). -/
+theorem C20_pushback_first (cfg : Cfg) (c : Content) (hc : IdsNotAhead c) (evs₁ evs₂ : List Step)
+    (hA₁ : AllAnswer c evs₁) (hA₂ : AllAnswer c evs₂) (y : Item) (ys : List Item)
+    (hq : flat (finalSt cfg evs₁).queue = y :: ys) :
+    firstReleased (playH cfg (playH cfg {} [] evs₁).st (playH cfg {} [] evs₁).last evs₂).batches = none ∨
+    firstReleased (playH cfg (playH cfg {} [] evs₁).st (playH cfg {} [] evs₁).last evs₂).batches = some y :=
+  playH_first c cfg hc evs₂ hA₂ _ _ _ (playH_inv c cfg hc evs₁ hA₁ {} [] [] (inv_init c cfg)) y ys hq
+
+/-! ## Nothing is stuck -/
+
+/-- **Liveness.** After any history `evs₁`, let `evs₂` be calls (and restarts) in which the heights
+below `hi` answer (no error, reached) and whose limits admit every tx of those heights
+(`AllDrain`). If `evs₂` has at least (number of txs of the heights below `hi`) + (number of those
+heights) calls, then all txs of all heights below `hi` have been released (in DA order, by
+`C20_da_order`): the scan position does not stay at a height, later heights are reached. -/
+theorem C20_drains (cfg : Cfg) (c : Content) (hc : IdsNotAhead c) (hi : Nat) (evs₁ evs₂ : List Step)
+    (hA : AllAnswer c evs₁) (hD : AllDrain c cfg hi evs₂)
+    (hk : (stream c cfg.daStart (hi - cfg.daStart)).length + (hi - cfg.daStart) ≤ calls evs₂) :
+    stream c cfg.daStart (hi - cfg.daStart) <+: released cfg (evs₁ ++ evs₂) := by
+  have h1 := playH_inv c cfg hc evs₁ hA {} [] [] (inv_init c cfg)
+  have h2 := playH_inv c cfg hc evs₂ (allDrain_answer c cfg hi evs₂ hD) _ _ _ h1
+  have ht := playH_todo c cfg hc hi evs₂ hD _ _ _ h1
+  have h0 : todo c cfg hi (playH cfg (playH cfg {} [] evs₁).st (playH cfg {} [] evs₁).last evs₂).st
+      ([] ++ (playH cfg {} [] evs₁).batches.flatten ++
+        (playH cfg (playH cfg {} [] evs₁).st (playH cfg {} [] evs₁).last evs₂).batches.flatten) = 0 := by
+    rcases ht with ht | ht
+    · have hb : todo c cfg hi (playH cfg {} [] evs₁).st ([] ++ (playH cfg {} [] evs₁).batches.flatten)
+          ≤ (hi - cfg.daStart) + (stream c cfg.daStart (hi - cfg.daStart)).length := by
+        unfold todo
+        have := daStart_le_pos cfg (playH cfg {} [] evs₁).st
+        omega
+      omega
+    · exact ht
+  have := todo_zero h2 hi h0
+  simpa [released, playH_append] using this
+
+/-! ## The scripted DA layer of the correspondence stream satisfies the hypotheses -/
+
+/-- calls on views of a scripted DA -/
+def viewSteps (cs : List (DA × Nat)) : List Step := cs.map fun p => .call p.1.fetch p.2
+
+theorem allAnswer_views (d : DA) (cs : List (DA × Nat)) (hs : ∀ p ∈ cs, p.1.sees d) :
+    AllAnswer d.content (viewSteps cs) := by
+  induction cs with
+  | nil => trivial
+  | cons p cs ih =>
+    exact ⟨DA.answers p.1 d (hs p (by simp)), ih fun q hq => hs q (by simp [hq])⟩
+
+/-- the main theorem instantiated with the DA the driver executes and the harness implements: a DA
+`d` whose head grows and whose per-height retrieval faults are set and cleared between the calls
+(`p.1.sees d`: the call sees a lower head and any faults) -/
+theorem C20_da_order_scripted (cfg : Cfg) (d : DA) (cs : List (DA × Nat)) (hs : ∀ p ∈ cs, p.1.sees d) :
+    ∃ n, released cfg (viewSteps cs) ++ flat (finalSt cfg (viewSteps cs)).queue = stream d.content cfg.daStart n ∧
+      persistedPos cfg (finalSt cfg (viewSteps cs)) = cfg.daStart + n :=
+  C20_da_order cfg d.content (DA.idsNotAhead d) _ (allAnswer_views d cs hs)
+
+/-! ## The inputs that refuted the clauses before the repair, now -/
+
+/-- the block manager on a scripted DA: one `(view, limit)` per call -/
+def play (cfg : Cfg) (cs : List (DA × Nat)) : Played := playH cfg {} [] (viewSteps cs)
+
+def idsOf (bs : List (List Item)) : List (List Bytes) := bs.map fun b => b.map (·.id)
+
+def w1DA : DA := { head := 50, blobs := [(1, [[0xaa, 1], [0xaa, 2], [0xaa, 3]]), (2, [[0xbb, 1]])] }
+
+/-- the witness history is what the real code does today -/
+theorem C20_w1_is_real : idsOf (play ⟨1, 2⟩ [(w1DA, 5), (w1DA, 5), (w1DA, 5)]).batches = Gen.C20.w1Ids := by
   decide +kernel
 
-/-- non-vacuity: a call that releases a prefix, pushes back the rest and leaves the position behind -/
+/-- **Old witness of "height re-released" / "stuck at a re-released height", now.** Before the
+repair the second call released `aa03, aa01` (height 1 again) and 12 calls never left height 1.
+Now: no id twice; 12 calls release exactly the four txs of heights 1 and 2 in DA order, the
+carry-over is empty and the scan position has moved on. -/
+theorem C20_w1_now_behaves :
+    ((play ⟨1, 2⟩ [(w1DA, 5), (w1DA, 5)]).batches.flatten.map (·.id)).Nodup ∧
+    (play ⟨1, 2⟩ (List.replicate 12 (w1DA, 5))).batches.flatten = stream w1DA.content 1 2 ∧
+    (play ⟨1, 2⟩ (List.replicate 12 (w1DA, 5))).st.queue = [] ∧
+    (play ⟨1, 2⟩ (List.replicate 12 (w1DA, 5))).st.scanP = some 35 := by
+  decide +kernel
+
+def w2DA : DA := { head := 2, blobs := [(1, [[1]])] }
+def w2DA' : DA := { head := 10, blobs := [(1, [[1]]), (2, [[2]])] }
+
+theorem C20_w2_is_real : idsOf (play ⟨1, 1⟩ [(w2DA, 0), (w2DA', 0), (w2DA', 0)]).batches = Gen.C20.w2Ids := by
+  decide +kernel
+
+/-- **Old witness of "height from the future skipped", now.** Before the repair the first call
+moved the position to 3 and the tx that appeared at height 2 was never released. Now the first call
+stops at height 2 (not reached yet) and the second call releases it. -/
+theorem C20_w2_now_behaves :
+    w2DA.sees w2DA' ∧
+    (play ⟨1, 1⟩ [(w2DA, 0)]).st.scanP = some 2 ∧
+    (play ⟨1, 1⟩ [(w2DA, 0), (w2DA', 0), (w2DA', 0)]).batches.flatten = stream w2DA'.content 1 2 := by
+  refine ⟨⟨by decide, ?_⟩, by decide +kernel, by decide +kernel⟩
+  intro h hh
+  have : h = 0 ∨ h = 1 := by simp [w2DA] at hh; omega
+  rcases this with rfl | rfl <;> decide
+
+def w3DA : DA := { head := 20, blobs := [(1, [[1], [9, 9, 9, 9, 9, 9], [3]]), (2, [[4]])] }
+
+theorem C20_w3_is_real : idsOf (play ⟨1, 1⟩ [(w3DA, 4), (w3DA, 4), (w3DA, 4)]).batches = Gen.C20.w3Ids := by
+  decide +kernel
+
+/-- **Old witness of "oversize tx overtaken", now.** Before the repair the calls with limit 4 kept
+releasing `01` in front of the 6-byte tx. Now, with limit 4, the first call releases `01`, pushes
+the 6-byte tx and `03` back, and the next calls release nothing and stay put (limit smaller than
+the head of the carry-over); when a call with limit 10 arrives, the 6-byte tx comes first, then
+`03`, then height 2 — the DA order. -/
+theorem C20_w3_now_behaves :
+    idsOf (play ⟨1, 1⟩ [(w3DA, 4), (w3DA, 4), (w3DA, 4), (w3DA, 10)]).batches =
+      [[mkId 1 0], [], [], [mkId 1 1, mkId 1 2, mkId 2 0]] ∧
+    (play ⟨1, 1⟩ [(w3DA, 4), (w3DA, 4), (w3DA, 4)]).st = (play ⟨1, 1⟩ [(w3DA, 4)]).st ∧
+    (play ⟨1, 1⟩ [(w3DA, 4), (w3DA, 4), (w3DA, 4), (w3DA, 10)]).batches.flatten = stream w3DA.content 1 2 := by
+  decide +kernel
+
+/-! ## Non-vacuity of the history theorems -/
+
+/-- the hypotheses of `C20_da_order` / `C20_exactly_once` are satisfiable: the scripted DA answers
+its own content, its ids are distinct -/
+example : AllAnswer w1DA.content (viewSteps [(w1DA, 5), (w1DA, 5)]) ∧ IdsNotAhead w1DA.content ∧
+    ((stream w1DA.content 1 4).map (·.id)).Nodup :=
+  ⟨allAnswer_views w1DA _ (fun _ _ => by simp_all [DA.sees_refl]), DA.idsNotAhead _, by decide +kernel⟩
+
+/-- a call that releases a prefix of a height, pushes back the rest and moves the position past it -/
 example : let o := getNextBatch ⟨1, 2⟩ w1DA.fetch {} { max := 5 }
-    o.resp.items ++ flat o.st.queue = daItems w1DA.fetch 1 1 ∧ o.st.queue ≠ [] ∧ o.st.scanP = some 1 := by
+    o.resp.items ++ flat o.st.queue = stream w1DA.content 1 1 ∧ o.st.queue ≠ [] ∧ o.st.scanP = some 2 := by
   decide +kernel
 
-/-- non-vacuity: a call in which everything fits moves the position past what it consumed -/
+/-- a call in which everything fits moves the position past what it consumed -/
 example : let o := getNextBatch ⟨1, 2⟩ w1DA.fetch {} { max := 0 }
-    o.resp.items = daItems w1DA.fetch 1 3 ∧ o.st.queue = [] ∧ o.st.scanP = some 4 := by
+    o.resp.items = stream w1DA.content 1 3 ∧ o.st.queue = [] ∧ o.st.scanP = some 4 := by
+  decide +kernel
+
+/-- a retrieval error stops the scan at its height, a later call without the fault goes on -/
+example : let d : DA := { w1DA with errGet := [2] }
+    (play ⟨1, 2⟩ [(d, 0)]).st.scanP = some 2 ∧
+    (play ⟨1, 2⟩ [(d, 0), (w1DA, 0)]).batches.flatten = stream w1DA.content 1 2 := by
+  decide +kernel
+
+/-- `AllDrain` is satisfiable and `C20_drains` applies: heights 1 and 2 of `w1DA`, limit 5, 6 calls -/
+example : stream w1DA.content 1 2 <+: released ⟨1, 2⟩ (viewSteps (List.replicate 6 (w1DA, 5))) := by
   decide +kernel
 
 end Spec.C20
